@@ -402,7 +402,7 @@ def write_evidence(prop: str, tier: str, seed: int, t0: float, scen: dict, stats
         },
         "faults_fired": agg.get("faults", {}) if prop != "C11" else {
             "hashseed": len(set(hashseeds)), "presentation(reorder/renest)": agg.get("presentations", 0),
-            "preempt": agg.get("switches", 0)},
+            "preempt": agg.get("switches", 0), "abort": agg.get("aborts", 0), "lock-wait": agg.get("lock_waits", 0)},
         "distinct_interleavings": len(inter),
         "interleaving_measure": "digest of the full recorded schedule (who ran, at which op and line each switch happened) of a population round with at least one switch inside an operation",
         "ops_executed": agg.get("ops", {}),
